@@ -785,6 +785,7 @@ class X12ContextReader(object):
         """
         cur_tree = None
         cur_data_node = None
+        cur_map = None
         for seg in self.src:
             #find node
             orig_node = self.x12_map_node
@@ -829,6 +830,9 @@ class X12ContextReader(object):
                         #self._apply_loop_count(orig_node, cur_map)
                         #self._reset_isa_counts(cur_map)
                         self._reset_counter_to_isa_counts()
+                    if cur_map is None:
+                        raise pyx12.errors.EngineError("Map not found.  icvn=%s, fic=%s, vriic=%s" %
+                                                       (icvn, fic, vriic))
                     #self._reset_gs_counts(cur_map)
                     self._reset_counter_to_gs_counts()
                     tpath = '/ISA_LOOP/GS_LOOP/GS'
